@@ -145,6 +145,9 @@ func idExactnessRule(c *Ctx) {
 }
 
 func rulesC19(c *Ctx) {
+	c.Import("R-C19-11", "decoding never panics on malformed framing: a line that is not a message or a batch ends in an error before any element of the decoded slice is touched, an empty batch is refused, an undecodable element fails the whole batch", "C02", "R-C02-5", func(k string) bool {
+		return strings.HasPrefix(k, "ioConn.Read:readBatch") || strings.HasPrefix(k, "readBatch:") || strings.Contains(k, "readBatch")
+	})
 	c.Rule("R-C19-1", "request ids keep their type and exact integer value through decode", func() { idExactnessRule(c) })
 
 	c.Rule("R-C19-2", "encode and decode agree on the JSON-RPC envelope: same members, same mapping to API fields; Message has exactly the two implementations", func() {
@@ -671,6 +674,20 @@ func rulesC19(c *Ctx) {
 				c.Check(iw.heldLocal(w.Stmt)["ioConn.writeMu"], "ioConn.Write:newline-under-lock#"+itoa(nl), iw, w.Stmt, "the delimiter is appended with writeMu held")
 			}
 		}
+		// frames of concurrent writers do not interleave: the bytes go out while the writer's lock is held
+		for i, call := range iw.AllCalls(iw.Body, false) {
+			if sel, ok := ast.Unparen(call.Fun).(*ast.SelectorExpr); ok && sel.Sel.Name == "Write" && iw.IsField(sel.X, c.Field(pM, "ioConn", "rwc")) {
+				c.Check(iw.heldLocal(call)["ioConn.writeMu"], "ioConn.Write:bytes-written-under-lock#"+itoa(i), iw, call, "rwc.Write runs with writeMu held")
+			}
+		}
+		sw := c.Fn(pM, "sseServerConn", "Write")
+		weObj := c.FnObj(pM, "", "writeEvent")
+		nsw := 0
+		for _, call := range sw.CallsIn(sw.Body, weObj, false) {
+			nsw++
+			c.Check(sw.heldLocal(call)["SSEServerTransport.mu"], "sseServerConn.Write:event-written-under-lock", sw, call, "writeEvent runs with the transport's mutex held (held: %v): two responses written at once would otherwise interleave their event lines", keysOf(sw.heldLocal(call)))
+		}
+		c.Pin("sseServerConn.Write event writes", nsw, 1)
 		ev := g.callVertices(enc)
 		c.Check(nl >= 1 && len(ev) == 1, "ioConn.Write:one-newline-per-message", iw, nil, "each encoded message gets exactly one '\\n' appended (%d append sites across the three write paths)", nl)
 		// per write path: what was encoded is written, after exactly one delimiter was appended to it
